@@ -9,12 +9,31 @@
 (*        class tables hold byte offsets ("pre-multiplied" class values);  *)
 (*        rw = row width in bytes, ao = byte offset of the kerning array   *)
 (*        from the start of the subtable, arr = the array, row by row.     *)
-(* cov = low byte of the coverage field:                                   *)
-(*   bit 0 horizontal, bit 1 minimum, bit 2 cross-stream, bit 3 override.  *)
-(* Vertical subtables do not apply to horizontal text.  Cross-stream       *)
-(* subtables are documented as unsupported in gpos.rs (TODO) and are not   *)
-(* generated.                                                              *)
+(* cov = low byte of the coverage field, modelled completely:              *)
+(*   bit 0 horizontal   1 = the subtable kerns horizontal text; 0 = it is  *)
+(*                      a VERTICAL subtable, which says nothing about      *)
+(*                      horizontal text                                    *)
+(*   bit 1 minimum      the subtable has minimum values (Dev_KernMinimum)  *)
+(*   bit 2 cross-stream the values are perpendicular to the text flow (up/ *)
+(*                      down in horizontal text), not along it             *)
+(*   bit 3 override     the value replaces what was accumulated so far     *)
+(*   bits 4-7 reserved (0 in every generated table)                        *)
+(* A run of horizontal text therefore has two independent accumulations    *)
+(* per glyph pair: the WITH-stream one over the subtables that are         *)
+(* horizontal and not cross-stream - it is the only thing that changes the *)
+(* horizontal advance - and the CROSS-stream one over the subtables that   *)
+(* are horizontal and cross-stream.  Override and minimum act inside the   *)
+(* accumulation their subtable belongs to.  Vertical subtables (with or    *)
+(* without the cross-stream bit) contribute to neither.                    *)
+(*   "a cross-stream or vertical subtable never changes the horizontal     *)
+(*    advance"  (design invariant KernStreamsSeparate, checked by MC_Gpos) *)
 (*                                                                         *)
+(* Dev_KernCrossStream : what an engine does with the cross-stream         *)
+(*     accumulation of a pair: "ignore" (allsorts: TODO in gpos.rs) or     *)
+(*     "shift" - move the right glyph of the pair across the line by it    *)
+(*     (HarfBuzz sets y_offset of the second glyph).  Either is accepted;  *)
+(*     adding it to the advance is not.  (Apple's reset value 0x8000 is    *)
+(*     not generated.)                                                     *)
 (* Dev_KernMinimum  : OpenType only says a minimum subtable "has minimum   *)
 (*     values"; engines limit the accumulated value from below (max), from *)
 (*     above (min, allsorts) or ignore such subtables (HarfBuzz).          *)
@@ -30,8 +49,14 @@ KernMinimum(st)     == KBit(st.cov, 1)
 KernCrossStream(st) == KBit(st.cov, 2)
 KernOverride(st)    == KBit(st.cov, 3)
 
+\* the accumulation a subtable belongs to in horizontal text
+KernWithStream(st)  == KernHorizontal(st) /\ ~KernCrossStream(st)
+KernAcrossStream(st) == KernHorizontal(st) /\ KernCrossStream(st)
+KernInStream(st, cross) == IF cross THEN KernAcrossStream(st) ELSE KernWithStream(st)
+
 KernHasMinimum(kern) == \E k \in 1 .. Len(kern) : KernHorizontal(kern[k]) /\ KernMinimum(kern[k])
 KernHasFmt2(kern)    == \E k \in 1 .. Len(kern) : kern[k].f = 2
+KernHasCross(kern)   == \E k \in 1 .. Len(kern) : KernAcrossStream(kern[k])
 
 NoValue == [has |-> FALSE, v |-> 0]
 Value(x) == [has |-> TRUE, v |-> x]
@@ -51,28 +76,41 @@ KernValue(D, st, l, r) ==
             IF o < 0 \/ o % 2 # 0 \/ o \div 2 >= Len(st.arr) THEN NoValue
             ELSE Value(st.arr[o \div 2 + 1])
 
-RECURSIVE KernAcc(_, _, _, _, _)
-KernAcc(D, kern, l, r, acc) ==
+\* accumulation over the subtables of one stream (cross = FALSE: along the line, TRUE: across)
+RECURSIVE KernAcc(_, _, _, _, _, _)
+KernAcc(D, kern, l, r, acc, cross) ==
   IF kern = <<>> THEN acc
   ELSE LET st == Head(kern)
            x  == KernValue(D, st, l, r)
-           a2 == IF ~KernHorizontal(st) \/ KernCrossStream(st) \/ ~x.has THEN acc
+           a2 == IF ~KernInStream(st, cross) \/ ~x.has THEN acc
                  ELSE IF KernOverride(st) THEN x.v
                  ELSE IF KernMinimum(st)
                  THEN CASE D.kernMin = "min" -> IF x.v < acc THEN x.v ELSE acc
                         [] D.kernMin = "max" -> IF x.v > acc THEN x.v ELSE acc
                         [] OTHER -> acc
                  ELSE acc + x.v IN
-       KernAcc(D, Tail(kern), l, r, a2)
+       KernAcc(D, Tail(kern), l, r, a2, cross)
 
 \* advance adjustment of every glyph of the run gs: the kerning of (glyph, next glyph)
 KernRun(D, kern, gs) ==
-  [j \in 1 .. Len(gs) |-> IF j < Len(gs) THEN KernAcc(D, kern, gs[j], gs[j + 1], 0) ELSE 0]
+  [j \in 1 .. Len(gs) |-> IF j < Len(gs) THEN KernAcc(D, kern, gs[j], gs[j + 1], 0, FALSE) ELSE 0]
+
+\* shift across the line of every glyph of the run: the cross-stream kerning of
+\* (previous glyph, glyph), if the engine applies cross-stream kerning at all
+KernShiftRun(D, kern, gs) ==
+  [j \in 1 .. Len(gs) |-> IF j > 1 /\ D.kernCross = "shift"
+                           THEN KernAcc(D, kern, gs[j - 1], gs[j], 0, TRUE) ELSE 0]
+
+\* design invariant: removing every cross-stream and every vertical subtable leaves the
+\* advance adjustments of any run unchanged
+KernOnlyWithStream(kern) == SelectSeq(kern, KernWithStream)
+KernStreamsSeparate(D, kern, gs) ==
+  KernRun(D, kern, gs) = KernRun(D, KernOnlyWithStream(kern), gs)
 
 \* encodable / inside the modelled fragment
 KernWF(kern) ==
   \A k \in 1 .. Len(kern) :
-    /\ ~KernCrossStream(kern[k])
+    /\ kern[k].cov \in 0 .. 15
     /\ ~(KernOverride(kern[k]) /\ KernMinimum(kern[k]))
     /\ kern[k].f = 0 =>
          \A m \in 1 .. (Len(kern[k].pairs) - 1) :
